@@ -9,6 +9,7 @@ import (
 	"fmt"
 	"os"
 	"runtime"
+	"runtime/pprof"
 	"sort"
 	"strings"
 	"sync"
@@ -153,11 +154,19 @@ var (
 // Start parses flags and creates the result.
 func Start(name string) *Result {
 	flag.Parse()
+	if pf := os.Getenv("VERIF_CPUPROFILE"); pf != "" { // development aid
+		if f, err := os.Create(pf); err == nil {
+			_ = pprof.StartCPUProfile(f)
+			cpuProfile = f
+		}
+	}
 	r := &Result{Harness: name, Args: os.Args[1:], Seed: *FlagSeed, Tier: *FlagTier,
 		DistinctKeys: map[string]int64{}, Observed: map[string]int64{}, vioCount: map[string]int{},
 		Extra: map[string]any{}, t0: time.Now(), out: *FlagOut}
 	return r
 }
+
+var cpuProfile *os.File
 
 func (r *Result) Thorough() bool { return r.Tier == "thorough" }
 
@@ -254,6 +263,10 @@ func (r *Result) Checkpoint() { r.write(false) }
 // Finish writes the final result and exits 0. (Violations are decided by vcheck, not by exit status.)
 func (r *Result) Finish() {
 	r.write(true)
+	if cpuProfile != nil {
+		pprof.StopCPUProfile()
+		_ = cpuProfile.Close()
+	}
 	os.Exit(0)
 }
 
